@@ -65,7 +65,13 @@ static void map_hist(M& m, bool ordered, int mul, int add)
 	vp_note(r.n);
 }
 
-extern "C" void h_map_hist(void) { Map<int, int> m; map_hist(m, true, 1, 0); vp_reach(1); }
+extern "C" void h_map_hist(void)
+{
+	Map<int, int> m;
+	if (vp_param(3) == 9) map_hist(m, true, 1000000000, -2000000000);    // keys spread over the whole int range (differences overflow)
+	else map_hist(m, true, 1, 0);
+	vp_reach(1);
+}
 extern "C" void h_hash_hist(void)
 {
 	int kind = vp_param(3);
